@@ -57,9 +57,18 @@ def real_apply(x, op):
 
 
 def make(parent, mt, new, off=0, name="s1"):
-    from cogent3 import make_seq
+    """new: False (old-style), True (new-style, make_seq), "coll" (new-style sequence handed out by a SequenceCollection:
+    its view is a SeqDataView over the collection's storage, another class than the one make_seq builds)"""
+    from cogent3 import make_seq, make_unaligned_seqs
     kw = {"annotation_offset": off} if off else {}
+    if new == "coll":
+        coll = make_unaligned_seqs({name: parent, "zz": "ACGTAC"[:max(1, len(parent))] if mt in ("dna", "text") else parent}, moltype=mt, new_type=True)
+        return coll.get_seq(name)
     return make_seq(parent, name=name, moltype=mt, new_type=new, **kw)
+
+
+def impl(new):
+    return "new.coll" if new == "coll" else "new" if new else "old"
 
 
 def slice_ops(L, rich):
@@ -81,11 +90,15 @@ PARENTS = {"dna": ["", "A", "AG", "ACG", "AGCTR", "ACGGTYA", "TG-CANR"],
 def gen_chain(tier, seed):
     rnd = random.Random(seed)
     thorough = tier == "thorough"
-    for new in (False, True):
+    for new in (False, True, "coll"):
         for mt, parents in PARENTS.items():
+            if new == "coll" and mt == "text":
+                continue
             for parent in parents:
                 L = len(parent)
-                offs = (0, 5) if mt == "dna" and L in (3, 5) else (0,)
+                if new == "coll" and L == 0:
+                    continue
+                offs = (0, 5) if mt == "dna" and L in (3, 5) and new != "coll" else (0,)
                 nuc = mt in ("dna", "rna")
                 first = slice_ops(L, rich=True)
                 extra = [["rc"], ["rna"], ["dna"]] if nuc else []
@@ -150,27 +163,27 @@ def contract_chain(case):
         try:
             x = real_apply(x, op)
         except Exception as e:
-            return ("fail", f"chain/{'new' if new else 'old'}/{op[0]}/raises", f"{case}: {type(e).__name__}: {e}")
+            return ("fail", f"chain/{impl(new)}/{op[0]}/raises", f"{case}: {type(e).__name__}: {e}")
         if str(prev_x) != prev_s:            # every operation of the algebra returns a new object
-            return ("fail", f"chain/{'new' if new else 'old'}/{op[0]}/receiver-changed",
+            return ("fail", f"chain/{impl(new)}/{op[0]}/receiver-changed",
                     f"{case}: after {op} the object it was applied to reads {str(prev_x)!r}, it read {prev_s!r}")
         s, cur_mt = s2, mt2
         got = str(x)
         if got != s:
             kind = op[0] + ("(neg)" if op[0] == "s" and op[3] is not None and op[3] < 0 else "")
             prev = [o[0] for o in ops[:ops.index(op)]]
-            return ("fail", f"chain/{'new' if new else 'old'}/str after {kind} following {prev}",
+            return ("fail", f"chain/{impl(new)}/str after {kind} following {prev}",
                     f"{case}: str gives {got!r}, plain-string chain gives {s!r}")
         if len(x) != len(s) or "".join(str(c) for c in x) != s:
-            return ("fail", f"chain/{'new' if new else 'old'}/len-iter", f"{case}: len/iter disagree with {s!r}")
+            return ("fail", f"chain/{impl(new)}/len-iter", f"{case}: len/iter disagree with {s!r}")
         # integer indexing, from both ends
         for i_ in range(-len(s), len(s)):
             try:
                 ch = str(x[i_])
             except Exception as e:
-                return ("fail", f"chain/{'new' if new else 'old'}/getitem-int/raises", f"{case}: view {s!r}[{i_}] raises {type(e).__name__}: {e}")
+                return ("fail", f"chain/{impl(new)}/getitem-int/raises", f"{case}: view {s!r}[{i_}] raises {type(e).__name__}: {e}")
             if ch != s[i_]:
-                return ("fail", f"chain/{'new' if new else 'old'}/getitem-int/{'negative' if i_ < 0 else 'non-negative'}-index",
+                return ("fail", f"chain/{impl(new)}/getitem-int/{'negative' if i_ < 0 else 'non-negative'}-index",
                         f"{case}: view {s!r}[{i_}] gives {ch!r}, the string gives {s[i_]!r}")
         if op[0] in ("rna", "dna") and mt2 != cur_mt_before:
             # a moltype conversion builds a new sequence: its parent is the converted string itself
@@ -179,7 +192,7 @@ def contract_chain(case):
         if hasattr(x, "parent_coordinates") and hasattr(x, "_seq") and getattr(x._seq, "seq_len", None) == rooted_len:
             ok, msg = displayed_segment_ok(x, root, cur_mt, root_off, seqids)
             if not ok:
-                return ("fail", f"chain/{'new' if new else 'old'}/parent_coordinates after {[o[0] for o in ops]}", f"{case}: {msg}")
+                return ("fail", f"chain/{impl(new)}/parent_coordinates after {[o[0] for o in ops]}", f"{case}: {msg}")
     return ("ok", len(s) > 0 and len(ops) >= 1)
 
 
@@ -263,15 +276,18 @@ def method_table(x):
 
 def gen_methods(tier, seed):
     thorough = tier == "thorough"
-    for new in (False, True):
+    for new in (False, True, "coll"):
         for mt, parents in (("dna", ["AGCTR", "TG-CANR", "ATGAAATAG", "AC?GTN"]), ("rna", ["UG-CAY"]), ("protein", ["MKVLQ"])):
             for parent in parents:
                 L = len(parent)
                 nuc = mt in ("dna", "rna")
                 views = [[["s", None, None, None]], [["s", 1, None, None]], [["s", None, -1, 2]], [["s", 1, L - 1, 1]],
                          [["s", None, None, -1]], [["s", -2, 0, -2]]]
+                # views that display nothing: every method must answer as on an empty sequence, not for the parent
+                views += [[["s", L, None, None]], [["s", 2, 2, None]], [["s", 3, 1, None]], [["s", L + 5, None, None]],
+                          [["s", None, 0, None]], [["s", 1, None, 2], ["s", 9, None, None]]]
                 if nuc:
-                    views += [[["rc"]], [["s", 1, None, None], ["rc"]], [["rc"], ["s", None, None, 2]]]
+                    views += [[["rc"]], [["s", 1, None, None], ["rc"]], [["rc"], ["s", None, None, 2]], [["rc"], ["s", 4, 2, None]]]
                 if thorough:
                     views += [[op] for op in slice_ops(L, rich=False)[::3]]
                 x0 = make(parent, mt, new)
@@ -327,7 +343,7 @@ def contract_methods(case):
     b = run(y, other_y)
     if a != b:
         viewkind = "+".join(o[0] + ("-" if o[0] == "s" and o[3] is not None and o[3] < 0 else "") for o in ops)
-        return ("fail", f"method/{'new' if new else 'old'}/{n}/{viewkind}",
+        return ("fail", f"method/{impl(new)}/{n}/{viewkind}",
                 f"{case}: on view {s!r} -> {str(a)[:200]}; on rebuilt sequence -> {str(b)[:200]}")
     return ("ok", a[0] == "ret")
 
